@@ -141,10 +141,10 @@ def translate(plan, steps, name, n, maxlru, uniq, flip=0):
 
 
 def variants(plan, steps, name, scenarios, maxlru, uniq):
-    """One scenario per behaviour; behaviours with a batch are replayed a second time with Batch.Query and
-    Batch.Bind swapped."""
+    """One scenario per behaviour; behaviours with a batch or an answered-but-failing PREPARE are replayed a second
+    time with Batch.Query / Batch.Bind and ERROR answer / unparsable answer swapped."""
     scenarios.append(translate(plan, steps, name, len(scenarios) + 1, maxlru, uniq))
-    if any(len(p["items"]) > 1 for p in _fix(plan).values()):
+    if any(len(p["items"]) > 1 for p in _fix(plan).values()) or any(a["a"] == "PrepFail" for a, _ in steps):
         scenarios.append(translate(plan, steps, name, len(scenarios) + 1, maxlru, uniq, flip=1))
 
 
